@@ -2,6 +2,7 @@ package gelf
 
 import (
 	"context"
+	"math"
 	"strings"
 	"time"
 
@@ -411,7 +412,8 @@ func (p *Plugin) makeTimestampField(root *insaneJSON.Root, timestampField string
 	}
 
 	// is event in the past? earlier than "Sunday, September 9, 2001 1:46:40 AM"
-	if ts < 1000000000 {
+	// a number beyond the float64 range (1e999) decodes to +Inf, which is not a JSON value
+	if ts < 1000000000 || math.IsInf(ts, 0) {
 		ts = now
 	}
 
